@@ -45,7 +45,7 @@ def _case(draw, tier, stratum):
     q = draw(st.sampled_from([0.01, 0.01, None]))
     n = draw(st.integers(1, 3))
     labs = []
-    names = ["Alpha", "Beta plate ", " Gamma_3"]
+    names = ["Alpha 70%", "Beta plate ", " Gamma_3"]
     device, focus = stratum
     for i in range(n):
         kind = draw(st.sampled_from(["plate", "trough"])) if i == 0 else draw(st.sampled_from(["plate", "plate", "trough"]))
@@ -347,6 +347,11 @@ def check_case(case) -> Obs:
             moved = True
         if [v for v in obs.violations if v[0] not in KNOWN_KINDS]:
             break
+    _msg = world.templates_changed()
+    if _msg:
+        obs.bad("C01/untouched-object-changed", _msg)
+    if world.templates:
+        obs.cls("cloned-labware")
     obs.nontrivial = moved
     return obs
 
